@@ -263,7 +263,7 @@ Qed.
 Lemma unq_aset k v c : bytes_ok k = true -> all_image c ->
   unq_items (aset (quote_plus k) v c) = aset k v (unq_items c).
 Proof.
-  intros Hk. induction c as [|[g w] r IH]; intros Hc; cbn.
+  intros Hk. unfold unq_items. induction c as [|[g w] r IH]; intros Hc; cbn.
   - now rewrite unq_q.
   - rewrite (imageq_eqb k g Hk) by (apply Hc; cbn; auto).
     destruct (str_eqb k (unquote_plus g)); cbn; [reflexivity|]. rewrite IH; [reflexivity|].
@@ -272,8 +272,264 @@ Qed.
 Lemma unq_adel k c : bytes_ok k = true -> all_image c ->
   unq_items (adel (quote_plus k) c) = adel k (unq_items c).
 Proof.
-  intros Hk. induction c as [|[g w] r IH]; intros Hc; cbn; [reflexivity|].
+  intros Hk. unfold unq_items. induction c as [|[g w] r IH]; intros Hc; cbn; [reflexivity|].
   rewrite (imageq_eqb k g Hk) by (apply Hc; cbn; auto).
   destruct (str_eqb k (unquote_plus g)); cbn; [reflexivity|]. rewrite IH; [reflexivity|].
   intros f Hf. apply Hc. cbn. auto.
 Qed.
+
+(* ------------------------------------------------------------------ the invariant *)
+Definition dinv (d : dir) : Prop := NoDup (List.map fst d) /\ all_image d.
+Definition inv (s : store) : Prop := dinv (st_dir s) /\ st_cache s = filter nonlock (st_dir s).
+
+Lemma fl_aset_true f v (d : dir) : is_lock f = false -> filter nonlock (aset f v d) = aset f v (filter nonlock d).
+Proof. intros H. apply (filter_aset_true (fun f => negb (is_lock f))). now rewrite H. Qed.
+Lemma fl_aset_false f v (d : dir) : is_lock f = true -> filter nonlock (aset f v d) = filter nonlock d.
+Proof. intros H. apply (filter_aset_false (fun f => negb (is_lock f))). now rewrite H. Qed.
+Lemma fl_adel_true f (d : dir) : is_lock f = false -> filter nonlock (adel f d) = adel f (filter nonlock d).
+Proof. intros H. apply (filter_adel_true (fun f => negb (is_lock f))). now rewrite H. Qed.
+Lemma fl_adel_false f (d : dir) : is_lock f = true -> filter nonlock (adel f d) = filter nonlock d.
+Proof. intros H. apply (filter_adel_false (fun f => negb (is_lock f))). now rewrite H. Qed.
+Lemma fl_assoc f (d : dir) : is_lock f = false -> assoc f (filter nonlock d) = assoc f d.
+Proof. intros H. apply (assoc_filter (fun f => negb (is_lock f))). now rewrite H. Qed.
+Lemma fl_names g (d : dir) : In g (List.map fst (filter nonlock d)) <-> In g (List.map fst d) /\ is_lock g = false.
+Proof.
+  pose proof (names_filter (fun f => negb (is_lock f)) g d) as H. cbn beta in H.
+  rewrite negb_true_iff in H. exact H.
+Qed.
+Lemma fl_has_key_lock f (d : dir) : is_lock f = true -> has_key f (filter nonlock d) = false.
+Proof. intros H. apply has_key_false. rewrite fl_names. intros [_ A]. congruence. Qed.
+Lemma fl_has_key f (d : dir) : is_lock f = false -> has_key f (filter nonlock d) = has_key f d.
+Proof. intros H. unfold has_key. now rewrite fl_assoc. Qed.
+
+Lemma dinv_aset f v d : imageq f -> dinv d -> dinv (aset f v d).
+Proof.
+  intros Hf [Hn Hi]. split; [now apply NoDup_aset|].
+  intros g Hg. apply In_names_aset in Hg as [->|Hg]; auto.
+Qed.
+Lemma dinv_adel f d : dinv d -> dinv (adel f d).
+Proof.
+  intros [Hn Hi]. split; [now apply NoDup_adel|]. intros g Hg. apply Hi. eapply In_names_adel; eauto.
+Qed.
+Lemma dinv_touch f d : imageq f -> dinv d -> dinv (touch_lock f d).
+Proof. intros Hf. apply dinv_aset. now apply imageq_lock_of. Qed.
+Lemma fl_touch f d : filter nonlock (touch_lock f d) = filter nonlock d.
+Proof. apply fl_aset_false, is_lock_lock_of. Qed.
+Lemma all_image_filter d : all_image d -> all_image (filter nonlock d).
+Proof. intros H g Hg. apply fl_names in Hg as [Hg _]. auto. Qed.
+
+(* ------------------------------------------------------------------ delete *)
+Lemma del_file_filter f d : filter nonlock (del_file f d) = adel f (filter nonlock d).
+Proof.
+  unfold del_file. destruct (is_lock f) eqn:L.
+  - rewrite fl_adel_false by exact L. symmetry. apply adel_notin. now apply fl_has_key_lock.
+  - destruct (has_key f d) eqn:K.
+    + rewrite fl_adel_false by apply is_lock_lock_of. rewrite fl_adel_true by exact L. now rewrite fl_touch.
+    + symmetry. apply adel_notin. now rewrite fl_has_key.
+Qed.
+Lemma dinv_del_file f d : imageq f -> dinv d -> dinv (del_file f d).
+Proof.
+  intros Hf Hd. unfold del_file. destruct (is_lock f); [now apply dinv_adel|].
+  destruct (has_key f d); [|exact Hd]. now apply dinv_adel, dinv_adel, dinv_touch.
+Qed.
+Lemma del_file_names f d g : NoDup (List.map fst d) -> In g (List.map fst (del_file f d)) ->
+  In g (List.map fst d) /\ g <> f.
+Proof.
+  intros Hn Hg. unfold del_file in Hg. destruct (is_lock f).
+  - split; [eapply In_names_adel; eauto|]. intros ->. now apply (adel_removes f d Hn).
+  - destruct (has_key f d) eqn:K.
+    + pose proof (NoDup_aset (lock_of f) [] d Hn) as N1. fold (touch_lock f d) in N1.
+      pose proof (NoDup_adel f _ N1) as N2.
+      assert (g <> lock_of f) as G1 by (intros ->; now apply (adel_removes _ _ N2) in Hg).
+      apply In_names_adel in Hg.
+      assert (g <> f) as G2 by (intros ->; now apply (adel_removes _ _ N1) in Hg).
+      apply In_names_adel in Hg. unfold touch_lock in Hg. apply In_names_aset in Hg as [Hg|Hg]; [contradiction|auto].
+    + split; [exact Hg|]. intros ->. apply has_key_false in K. contradiction.
+Qed.
+
+Definition del_name (f : fname) (s : store) : store := mk_store (del_file f (st_dir s)) (adel f (st_cache s)).
+Lemma inv_del_name f s : imageq f -> inv s -> inv (del_name f s).
+Proof.
+  intros Hf [Hd Hc]. split; cbn; [now apply dinv_del_file|]. now rewrite del_file_filter, Hc.
+Qed.
+
+Lemma clear_fold L : forall s, (forall f, In f L -> imageq f) -> inv s ->
+  inv (fold_left (fun s f => del_name f s) L s) /\
+  forall g, In g (List.map fst (st_dir (fold_left (fun s f => del_name f s) L s))) ->
+            In g (List.map fst (st_dir s)) /\ ~ In g L.
+Proof.
+  induction L as [|f L IH]; intros s HL Hs; cbn [fold_left].
+  - split; [exact Hs|]. intros g Hg. split; [exact Hg|tauto].
+  - assert (inv (del_name f s)) as H1 by (apply inv_del_name; [apply HL; cbn; auto|exact Hs]).
+    destruct (IH (del_name f s) (fun g Hg => HL g (or_intror Hg)) H1) as [I2 N2]. split; [exact I2|].
+    intros g Hg. destruct (N2 g Hg) as [A B]. cbn in A.
+    destruct (del_file_names f (st_dir s) g (proj1 (proj1 Hs)) A) as [C D].
+    split; [exact C|]. intros [E|E]; [congruence|contradiction].
+Qed.
+Lemma fold_del_eq L : (forall f, In f L -> imageq f) -> forall s0,
+  fold_left (fun s f => fst (do_del (unquote_plus f) s)) L s0 = fold_left (fun s f => del_name f s) L s0.
+Proof.
+  induction L as [|f L IH]; intros Hi s0; cbn [fold_left]; [reflexivity|].
+  unfold do_del at 2. cbn [fst]. rewrite imageq_requote by (apply Hi; cbn; auto).
+  fold (del_name f s0). apply IH. intros g Hg. apply Hi. cbn. auto.
+Qed.
+Lemma do_clear_eq s : inv s ->
+  do_clear s = fold_left (fun s f => del_name f s) (List.map fst (st_dir s)) s.
+Proof. intros [[_ Hi] _]. unfold do_clear. now apply fold_del_eq. Qed.
+Lemma inv_clear s : inv s -> inv (do_clear s) /\ st_dir (do_clear s) = [].
+Proof.
+  intros Hs. rewrite do_clear_eq by exact Hs.
+  destruct (clear_fold (List.map fst (st_dir s)) s (proj2 (proj1 Hs)) Hs) as [I N]. split; [exact I|].
+  destruct (st_dir (fold_left _ _ s)) as [|[g w] r]; [reflexivity|].
+  exfalso. destruct (N g (or_introl eq_refl)) as [A B]. contradiction.
+Qed.
+
+(* ------------------------------------------------------------------ synch *)
+Lemma synch_files_id l d c :
+  (forall f x, In (f, x) l -> is_lock f = false -> has_key f c = true) -> synch_files l d c = (d, c).
+Proof.
+  induction l as [|[f x] r IH]; intros H; cbn [synch_files]; [reflexivity|].
+  destruct (is_lock f) eqn:L; [apply IH; intros; eapply H; [right|]; eauto|].
+  rewrite (H f x (or_introl eq_refl) L). apply IH. intros; eapply H; [right|]; eauto.
+Qed.
+Lemma synch_inv s : inv s -> synch s = s.
+Proof.
+  intros [Hd Hc]. unfold synch. rewrite synch_files_id; [now destruct s|].
+  intros f x Hin L. rewrite Hc, fl_has_key by exact L. apply has_key_In.
+  apply in_map_iff. exists (f, x). auto.
+Qed.
+Lemma filter_nonlock_cons f x (r : dir) :
+  filter nonlock ((f, x) :: r) = if is_lock f then filter nonlock r else (f, x) :: filter nonlock r.
+Proof. cbn [filter]. unfold nonlock at 1. cbn [fst]. destruct (is_lock f); reflexivity. Qed.
+Lemma synch_files_fresh l : forall d0 c0,
+  NoDup (List.map fst l) -> all_image l ->
+  (forall f, In f (List.map fst l) -> is_lock f = false -> has_key f c0 = false) -> dinv d0 ->
+  let '(d', c') := synch_files l d0 c0 in
+  c' = c0 ++ filter nonlock l /\ filter nonlock d' = filter nonlock d0 /\ dinv d'.
+Proof.
+  induction l as [|[f x] r IH]; intros d0 c0 Hn Hi Hf Hd; cbn [synch_files].
+  - cbn. now rewrite List.app_nil_r.
+  - cbn in Hn. inversion Hn as [|? ? Hnf Hnr]; subst.
+    assert (all_image r) as Hir by (intros g Hg; apply Hi; cbn; auto).
+    destruct (is_lock f) eqn:L.
+    + specialize (IH d0 c0 Hnr Hir (fun g Hg => Hf g (or_intror Hg)) Hd).
+      destruct (synch_files r d0 c0) as [d' c']. rewrite filter_nonlock_cons, L. exact IH.
+    + rewrite (Hf f (or_introl eq_refl) L).
+      assert (imageq f) as If by (apply Hi; cbn; auto).
+      specialize (IH (touch_lock f d0) (aset f x c0) Hnr Hir).
+      rewrite aset_notin in * by (apply Hf; cbn; auto).
+      destruct (synch_files r (touch_lock f d0) (c0 ++ [(f, x)])) as [d' c'].
+      destruct IH as (A & B & C).
+      * intros g Hg Lg. apply has_key_false. rewrite map_app, in_app_iff. cbn. intros [E|[E|[]]].
+        -- apply (has_key_false g c0); [apply Hf; cbn; auto|exact E].
+        -- subst. contradiction.
+      * now apply dinv_touch.
+      * split; [|split; [now rewrite B, fl_touch|exact C]].
+        rewrite A, filter_nonlock_cons, L. now rewrite <- app_assoc.
+Qed.
+Lemma synch_new d : dinv d ->
+  inv (synch (mk_store d [])) /\ filter nonlock (st_dir (synch (mk_store d []))) = filter nonlock d
+  /\ st_cache (synch (mk_store d [])) = filter nonlock d.
+Proof.
+  intros [Hn Hi]. unfold synch. cbn [st_dir st_cache].
+  pose proof (synch_files_fresh d d [] Hn Hi (fun _ _ _ => eq_refl) (conj Hn Hi)) as H.
+  destruct (synch_files d d []) as [d' c']. destruct H as (A & B & C). cbn in A. subst c'.
+  split; [split; cbn; [exact C|now rewrite B]|]. cbn. auto.
+Qed.
+Lemma observe_new_abs d : dinv d -> observe_new d = abs d.
+Proof. intros H. unfold observe_new, abs. now rewrite (proj2 (proj2 (synch_new d H))). Qed.
+
+(* ------------------------------------------------------------------ one step *)
+Lemma step_sim s o : op_ok o = true -> inv s ->
+  let '(s', x) := step s o in
+  let '(m', y) := astep (abs (st_dir s)) o in
+  x = y /\ inv s' /\ abs (st_dir s') = m'.
+Proof.
+  intros Ho Hs. pose proof Hs as [[Hn Hi] Hc].
+  assert (all_image (st_cache s)) as Hic by (rewrite Hc; now apply all_image_filter).
+  destruct o as [k v|k|k| | |k| | |]; cbn [step astep op_ok] in *.
+  - (* set *)
+    unfold do_set, set_refusal. rewrite is_lock_quote, is_dirname_quote by exact Ho.
+    assert (imageq (quote_plus k)) as If by (exists k; auto).
+    destruct (is_lock k) eqn:L; [auto|]. destruct (is_dirname k) eqn:D.
+    + split; [reflexivity|]. split.
+      * split; cbn; [apply dinv_touch; [exact If|now split]|now rewrite fl_touch].
+      * unfold abs. cbn. now rewrite fl_touch.
+    + rewrite <- (is_lock_quote k Ho) in L. split; [reflexivity|]. split.
+      * split; cbn; [apply dinv_aset, dinv_touch; [exact If|exact If|now split]|].
+        now rewrite fl_aset_true, fl_touch, Hc by exact L.
+      * unfold abs. cbn. rewrite fl_aset_true, fl_touch by exact L. rewrite <- Hc. now apply unq_aset.
+  - (* get *)
+    unfold do_get. rewrite is_lock_quote by exact Ho.
+    assert (assoc k (abs (st_dir s)) = assoc (quote_plus k) (st_cache s)) as EA.
+    { unfold abs. rewrite <- Hc. now apply unq_assoc. }
+    rewrite EA.
+    destruct (is_lock k) eqn:L.
+    + rewrite <- (is_lock_quote k Ho) in L. pose proof (fl_has_key_lock _ (st_dir s) L) as K.
+      rewrite <- Hc in K. unfold has_key in K. destruct (assoc (quote_plus k) (st_cache s)); [discriminate|].
+      auto.
+    + rewrite <- (is_lock_quote k Ho) in L. rewrite <- (fl_assoc _ _ L), <- Hc.
+      destruct (assoc (quote_plus k) (st_cache s)); auto.
+  - (* del *)
+    unfold do_del. assert (imageq (quote_plus k)) as If by (exists k; auto).
+    fold (del_name (quote_plus k) s). split; [reflexivity|]. split; [now apply inv_del_name|].
+    unfold abs. cbn. rewrite del_file_filter, <- Hc. now apply unq_adel.
+  - (* keys *) rewrite synch_inv by exact Hs. unfold abs. now rewrite <- Hc.
+  - (* items *) rewrite synch_inv by exact Hs. unfold abs. now rewrite <- Hc.
+  - (* contains *) split; [|auto]. unfold abs, has_key. rewrite <- Hc. now rewrite unq_assoc.
+  - (* len *) split; [|auto]. unfold abs, unq_items. now rewrite map_length.
+  - (* clear *) destruct (inv_clear s Hs) as [I E]. split; [reflexivity|]. split; [exact I|]. now rewrite E.
+  - (* reopen *) destruct (synch_new (st_dir s) (conj Hn Hi)) as (I & B & _).
+    split; [reflexivity|]. split; [exact I|]. unfold abs. now rewrite B.
+Qed.
+
+Lemma run_sim ops : forall s, ops_ok ops = true -> inv s ->
+  let '(s', xs) := run s ops in
+  let '(m', ys) := arun (abs (st_dir s)) ops in
+  xs = ys /\ inv s' /\ abs (st_dir s') = m'.
+Proof.
+  induction ops as [|o r IH]; intros s Ho Hs; cbn [run arun].
+  - auto.
+  - cbn in Ho. apply andb_true_iff in Ho as [Ho Hr].
+    pose proof (step_sim s o Ho Hs) as H1.
+    destruct (step s o) as [s1 x]. destruct (astep (abs (st_dir s)) o) as [m1 y]. destruct H1 as (-> & I1 & <-).
+    specialize (IH s1 Hr I1). destruct (run s1 r) as [s2 xs]. destruct (arun (abs (st_dir s1)) r) as [m2 ys].
+    destruct IH as (-> & I2 & E2). auto.
+Qed.
+
+Lemma inv_empty : inv empty_store.
+Proof. split; [split; [constructor|intros f []]|reflexivity]. Qed.
+
+(* The refinement: for EVERY sequence of dictionary operations over byte-string keys, started on an
+   empty directory, the store answers like a plain map (which refuses to write the three directory
+   names and names ending in ".lock"), the data files decode to exactly that map, and a new instance
+   opened over the same directory observes exactly that map. *)
+Theorem filestore_refines ops : ops_ok ops = true ->
+  let '(s, xs) := run empty_store ops in
+  let '(m, ys) := arun [] ops in
+  xs = ys /\ abs (st_dir s) = m /\ observe_new (st_dir s) = m.
+Proof.
+  intros Ho. pose proof (run_sim ops empty_store Ho inv_empty) as H. cbn [st_dir empty_store] in H.
+  change (abs []) with (@nil (bytes * pystr)) in H.
+  destruct (run empty_store ops) as [s xs]. destruct (arun [] ops) as [m ys].
+  destruct H as (A & I & B). split; [exact A|]. split; [exact B|]. rewrite <- B. apply observe_new_abs. exact (proj1 I).
+Qed.
+
+(* written-then-read, stated directly: after any history, the last value written to a storable key that
+   was not deleted since is what a new instance reads. (Corollary of the refinement, as an example of use.) *)
+Lemma set_then_new_instance ops k v : ops_ok ops = true -> bytes_ok k = true -> set_refusal k = None ->
+  assoc k (observe_new (st_dir (fst (run empty_store (ops ++ [OSet k v]))))) = Some v.
+Proof.
+  intros Ho Hk Hr.
+  assert (ops_ok (ops ++ [OSet k v]) = true) as Ho2.
+  { unfold ops_ok. rewrite forallb_app. fold (ops_ok ops). rewrite Ho. cbn. now rewrite Hk. }
+  pose proof (filestore_refines _ Ho2) as H.
+  destruct (run empty_store (ops ++ [OSet k v])) as [s xs] eqn:R.
+  destruct (arun [] (ops ++ [OSet k v])) as [m ys] eqn:A. cbn [fst]. destruct H as (_ & _ & ->).
+  clear R Ho2. revert m ys A. generalize (@nil (bytes * pystr)) as m0.
+  induction ops as [|o r IH]; intros m0 m ys A; cbn [app arun] in A.
+  - cbn [astep] in A. rewrite Hr in A. inversion A; subst. apply assoc_aset_same.
+  - cbn in Ho. apply andb_true_iff in Ho as [_ Ho]. destruct (astep m0 o) as [m1 y].
+    destruct (arun m1 (r ++ [OSet k v])) as [m2 ys2] eqn:A2. inversion A; subst. eapply IH; eauto.
+Qed.
+
